@@ -487,6 +487,88 @@ func harnesses(r *fw.Run) []fw.HarnessSpec {
 		}
 	})
 
+	// a slice value of a TVM stack (what get-methods return) is read through Cell() / UnmarshalToTlbStruct: every reading
+	// gives the same structure - after a complete reading, after a reading that failed half-way, and for two cells taken
+	// from one slice
+	add("vm-slice-read-repeatedly", 0, func(c *enum.Ctx) {
+		type pair struct {
+			A tlb.Uint64
+			B tlb.Uint64
+		}
+		type triple struct {
+			A tlb.Uint64
+			B tlb.Uint64
+			C tlb.Uint64
+		}
+		how := c.ChooseFree(2)   // 0: TlbStructToVmCellSlice, 1: CellToVmCellSlice
+		first := c.ChooseFree(4) // what happens before: 0 nothing, 1 a complete reading, 2 a reading that fails half-way, 3 Cell() read to the end
+		via := c.ChooseFree(2)   // 0: through the codec (a decoded copy of the stack value), 1: the value itself
+		c.Case([]byte(fmt.Sprintf("vmslice/%d/%d/%d", how, first, via)), true)
+		c.Label("vm slice built %d, earlier use %d, via %d", how, first, via)
+		want := pair{0x1111111111111111, 0x2222222222222222}
+		var v tlb.VmStackValue
+		var err error
+		c.Try("panic:vm-slice", func() {
+			if how == 0 {
+				v, err = tlb.TlbStructToVmCellSlice(want)
+			} else {
+				cl := tb.NewCell()
+				_ = cl.WriteUint(uint64(want.A), 64)
+				_ = cl.WriteUint(uint64(want.B), 64)
+				v, err = tlb.CellToVmCellSlice(cl)
+			}
+			if err != nil {
+				c.Fail("vm-slice-build", "%v", err)
+				return
+			}
+			if via == 0 {
+				enc := tb.NewCell()
+				if err := tlb.Marshal(enc, v); err != nil {
+					c.Fail("vm-slice-encode", "%v", err)
+					return
+				}
+				var back tlb.VmStackValue
+				if err := tlb.Unmarshal(enc, &back); err != nil {
+					c.Fail("vm-slice-decode", "%v", err)
+					return
+				}
+				v = back
+			}
+			switch first {
+			case 1:
+				var p pair
+				_ = v.VmStkSlice.UnmarshalToTlbStruct(&p)
+			case 2:
+				var t triple
+				if err := v.VmStkSlice.UnmarshalToTlbStruct(&t); err == nil {
+					c.Fail("vm-slice-overlong-read", "reading three 64-bit fields from a 128-bit slice succeeds")
+					return
+				}
+			case 3:
+				cl := v.VmStkSlice.Cell()
+				_, _ = cl.ReadUint(64)
+				_, _ = cl.ReadUint(64)
+			}
+			for attempt := 0; attempt < 2; attempt++ {
+				var p pair
+				if err := v.VmStkSlice.UnmarshalToTlbStruct(&p); err != nil {
+					c.Fail("vm-slice-reread-error", "reading the slice (attempt %d after earlier use %d) fails: %v", attempt+1, first, err)
+					return
+				}
+				if p != want {
+					c.Fail("vm-slice-reread-value", "reading the slice (attempt %d after earlier use %d) gives %x/%x, the slice holds %x/%x", attempt+1, first, uint64(p.A), uint64(p.B), uint64(want.A), uint64(want.B))
+					return
+				}
+			}
+			c1, c2 := v.VmStkSlice.Cell(), v.VmStkSlice.Cell()
+			a, e1 := c1.ReadUint(64)
+			b, e2 := c2.ReadUint(64)
+			if e1 != nil || e2 != nil || a != uint64(want.A) || b != uint64(want.A) {
+				c.Fail("vm-slice-cells-not-independent", "two cells taken from one slice read %x,%v and %x,%v; both start at %x", a, e1, b, e2, uint64(want.A))
+			}
+		})
+	})
+
 	add("snake-data-lengths", 0, func(c *enum.Ctx) {
 		kind := c.ChooseFree(3)
 		var n int
